@@ -160,6 +160,41 @@ def completeness(ctx):
 
 
 COLLECTS = ("::collect", "::from_iter", "::collect_vec")
+REORDERING = ("::sorted", "::sorted_by", "::sorted_by_key", "::sorted_unstable", "::rev", "::sort", "::sort_by", "::sort_by_key",
+              "::sort_unstable", "::reverse", "::dedup", "::unique")
+
+
+def cycle_order_preserved(ctx, rid="R2"):
+    """the vehicles of a reported cycle appear in the cycle's own order"""
+    key = J("fleet_to_json")
+    o = ctx.ob("%s.fleet_to_json.cycle-order-preserved" % rid, "T1", key,
+               "the ids inside a reported cycle are the cycle's vehicles in rotation order (no sorting, reversing or dropping)")
+    if key not in ctx.prog.bodies:
+        ctx.anchor_gone(o, key)
+        return
+    hits = []
+    found = False
+    for k in ctx.prog.family(key):
+        f2 = ctx.fd(k)
+        for c in f2.body.calls():
+            if any((c.callee or "").endswith(x) or (c.decl or "").endswith(x) for x in COLLECTS) and any("Vec<std::string::String>" in t or "Vec<String>" in t for t in c.targs):
+                at = f2.slice_operand_pure(c, c.args[0])["atoms"]
+                if call(TCYCLE + "::iter") in at or any(a.startswith("param:") for a in at):
+                    found = True
+                    cur = direct_def_instr(f2, c.args[0])
+                    guard = 0
+                    while cur is not None and cur.kind == "call" and guard < 12:
+                        guard += 1
+                        nm = cur.callee or ""
+                        if any(nm.endswith(x) or (cur.decl or "").endswith(x) for x in REORDERING + NARROWING):
+                            hits.append(cur)
+                        cur = direct_def_instr(f2, cur.args[0]) if cur.args else None
+    if not found:
+        ctx.undecided(o, "the per-cycle id list was not recognised")
+    else:
+        ctx.decide(o, not hits, "ids are mapped and collected in iteration order",
+                   "the ids of a cycle pass through %s at %s: the reported order is no longer the rotation order the end depots were aligned to"
+                   % ((hits[0].callee or "").split("::")[-1], hits[0].line()) if hits else "", loc=hits[0].line() if hits else None)
 
 
 def sequence_completeness(fd, vec):
@@ -189,6 +224,7 @@ def sequence_completeness(fd, vec):
 
 
 def dead_heads(ctx):
+    cycle_order_preserved(ctx)
     key = J("vehicle_to_json")
     o, fd = ctx.require_fn("R4.dead-head-iff-location-change", "T1", key,
                            "a dead-head trip is listed exactly when the end location of an activity differs from the start location of the next")
@@ -212,6 +248,26 @@ def dead_heads(ctx):
                 ok = False
                 detail = "the dead-head push at %s is not controlled by end_location != start_location" % p.line()
         ctx.decide(o, ok, "%d push(es) controlled by the location comparison only" % len(pushes), detail)
+    o, fd = ctx.require_fn("R4.dead-head-pinned-to-an-activity", "T12", J("schedule_dead_head_trip"),
+                           "one end of a dead-head trip is exactly an activity boundary and the other is that boundary +/- the minimal duration")
+    if fd is not None:
+        tups = [i for i in fd.body.instrs() if i.kind == "assign" and i.place.local == 0 and i.rv_kind() == "agg" and i.rv.get("ak") == "tuple" and len(i.ops) == 2]
+        ARITH = ("core::ops::arith::Add::add", "core::ops::arith::Sub::sub")
+        bad = []
+        for t in tups:
+            counts = []
+            for op in t.ops:
+                sl = fd.slice_operand_pure(t, op)
+                counts.append(len({d.instr.id for d in sl["defs"] if d.instr is not None and d.instr.kind == "call" and d.instr.decl in ARITH}))
+            if sorted(counts) != [0, 1]:
+                bad.append((t, counts))
+        if not tups:
+            ctx.undecided(o, "returned (departure, arrival) pairs not recognised")
+        else:
+            ctx.decide(o, not bad, "%d return(s): one time copied from an activity, the other one arithmetic step away" % len(tups),
+                       "at %s departure/arrival are %s arithmetic steps away from an activity boundary: the trip no longer has exactly the minimal "
+                       "duration anchored at the activity, so it can overlap the next activity" % (bad[0][0].line(), bad[0][1]) if bad else "",
+                       loc=bad[0][0].line() if bad else None)
     must_depend(ctx, "R4.dead-head-placement", "T1", J("schedule_dead_head_trip"), "ret",
                 [call(N("minimal_duration_between_nodes")), call(ND("end_time")), call(ND("start_time")), call(ND("is_depot")), "param:1", "param:2"],
                 "a dead-head trip is placed inside the gap: it leaves at the end of the first activity (or arrives at the start of the second when leaving a depot)")
@@ -259,6 +315,23 @@ def formations_in_step(ctx):
                 else:
                     ok = True
         ctx.decide(o, ok, "update_train_formation(displaced path) is independent of the dummy tour", detail)
+    for fn in ("remove_segment", "replace_vehicle_by_dummy", "add_path_to_vehicle_tour"):
+        o, fd = ctx.require_fn("R3.%s.released-nodes-independent-of-dummy" % fn, "T10", S(fn),
+                               "%s: vehicles are taken out of the formations of removed nodes whether or not a dummy tour is created for them" % fn)
+        if fd is None:
+            continue
+        ut = calls_to(fd, UTF)
+        bad = []
+        for u in ut:
+            mv = fd.slice_operand_pure(u, u.args[5])
+            via_dummy = any(d.instr is not None and d.instr.kind == "call" and d.instr.callee == T("new_dummy") for d in mv["defs"])
+            ctl_dummy = [sw for sw, cal, d in controlling_sources(fd, u) if cal == T("new_dummy")]
+            if via_dummy or ctl_dummy:
+                bad.append(u)
+        ctx.decide(o, bool(ut) and not bad, "%d formation update(s), none tied to Tour::new_dummy" % len(ut),
+                   "the formation update at %s iterates / is guarded by the dummy tour: removed maintenance slots (never part of a dummy tour) keep "
+                   "the vehicle in their formation and block a track" % bad[0].line() if bad else "no formation update found",
+                   loc=bad[0].line() if bad else None)
     must_depend(ctx, "R3.update-covers-nodes", "T1", UTF, "dec", [call(ND("is_depot"))],
                 "update_train_formation processes every moved non-depot node")
     o, fd = ctx.require_fn("R3.update-writes-formation-per-node", "T1", UTF, "each processed node's formation is replaced by the result of the vehicle replacement")
@@ -268,7 +341,32 @@ def formations_in_step(ctx):
         ctx.decide(o, ok, "train_formations.insert(node, vehicle_replacement_in_train_formation(..))", "no such insert found")
 
 
+def location_names_are_total(ctx, rid="R1"):
+    """Locations::get_id is called for the (Nowhere) location of the overflow depot when its dead-head trips are written"""
+    from .. import optabs
+    key = LOCS + "::get_id"
+    o, fd = ctx.require_fn("%s.get_id-answers-for-nowhere" % rid, "T1+abs", key,
+                           "Locations::get_id answers for Location::Nowhere without asking for its (non-existent) index")
+    if fd is None:
+        return
+    loc = ctx.prog.adts.get("model::base_types::location::Location")
+    if loc is None:
+        ctx.undecided(o, "Location type not found")
+        return
+    vi = [i for i, v in enumerate(loc["variants"]) if v["name"] == "Nowhere"]
+    if not vi:
+        ctx.undecided(o, "Location::Nowhere not found")
+        return
+    recs = optabs.enum_cases(fd.body, {2: vi[0]})
+    idx_calls = [r for r in recs if any(c.endswith("Location::idx") for c in r["calls"])]
+    it_paths = len(recs)
+    ctx.decide(o, it_paths >= 1 and not idx_calls, "Nowhere is answered on %d path(s) without Location::idx" % it_paths,
+               "for Location::Nowhere get_id %s: any schedule that uses the overflow depot cannot be written out" % (
+                   "calls Location::idx (which panics for Nowhere)" if idx_calls else "has no returning path"))
+
+
 def rules(ctx):
+    location_names_are_total(ctx)
     field_tables(ctx)
     completeness(ctx)
     formations_in_step(ctx)
